@@ -40,7 +40,7 @@ type Scn struct {
 	Stall *StallD `json:"stall,omitempty"`
 }
 
-func W(s string) Step     { return Step{K: "w", B: []byte(s)} }
+func W(s string) Step       { return Step{K: "w", B: []byte(s)} }
 func R(cols, rows int) Step { return Step{K: "r", Cols: cols, Rows: rows} }
 
 // ---- observation -------------------------------------------------------
